@@ -114,7 +114,11 @@ def run_raw(case):
                 outs.append(res[0] if res else ["notfired"])
             elif k == "complete":
                 _, h, kids = op
-                B.complete_struct_or_union(handles[h], [("f%d" % i, handles[x], -1) for i, x in enumerate(kids)])
+                if kids:
+                    B.complete_struct_or_union(handles[h], [("f%d" % i, handles[x], -1) for i, x in enumerate(kids)])
+                else:
+                    B.complete_struct_or_union(handles[h], [], Ellipsis, 0)      # no fields, total size 0
+                    assert B.sizeof(handles[h]) == 0
                 outs.append(["ok"])
             elif k == "drop":
                 del handles[op[1]]
@@ -182,7 +186,32 @@ CDEF = """
     typedef struct s s_t;
     typedef int (*fn_t)(int, char *);
     enum e { EA, EB };
+    struct empty { };
 """
+
+
+def norm(x):
+    """canonical spelling of a type string / cname for the request-vs-result comparison"""
+    import re
+    x = re.sub(r"\s+", "", x.replace("s_t", "struct s")).replace("(void)", "()")
+    if x.startswith("fn_t"):
+        x = "int(*" + x[4:] + ")(int,char*)"
+    return x
+
+
+def zero_item(t):
+    try:
+        return t.kind == "array" and B.sizeof(t.item) == 0
+    except TypeError:
+        return False
+
+
+def bound(t, want):
+    """the ctype returned for the requested spelling must be that type"""
+    if norm(t.cname) != norm(want):
+        return ["wrong", "typeof(%r) returned the ctype '%s'%s" % (
+            want, t.cname, " of length %r" % (t.length,) if t.kind == "array" else "")]
+    return ["ok", "array_of_zero_size_items"] if zero_item(t) else ["ok"]
 
 
 def make_ool(idx):
@@ -211,7 +240,9 @@ def run_ffi(case):
         try:
             if k == "ffi":
                 _, f, ool = op
-                if ool:
+                if ool == 2:
+                    ffis[f] = B.FFI()             # the C-level FFI class alone: only type strings
+                elif ool:
                     ffis[f] = make_ool(f)
                 else:
                     ffis[f] = cffi.FFI()
@@ -220,17 +251,18 @@ def run_ffi(case):
             elif k == "typeof":
                 _, h, f, s = op
                 handles[h] = ffis[f].typeof(s)
-                outs.append(["ok"])
+                outs.append(bound(handles[h], s))
             elif k == "derive":          # new pointer / array type from an existing handle
                 _, h, f, src, how = op
                 t = handles[src]
-                if how == "ptr":
-                    handles[h] = ffis[f].typeof(ffis[f].getctype(t, "*"))
-                elif how == "arr":
-                    handles[h] = ffis[f].typeof(ffis[f].getctype(t, "[3]"))
+                suffix = {"ptr": "*", "arr": "[3]", "arr0": "[0]", "arr5": "[5]", "arr7": "[7]"}.get(how)
+                if suffix:
+                    want = ffis[f].getctype(t, suffix)
+                    handles[h] = ffis[f].typeof(want)
+                    outs.append(bound(handles[h], want))
                 else:
                     handles[h] = t.item if t.kind in ("pointer", "array") else t
-                outs.append(["ok"])
+                    outs.append(["ok"])
                 del t
             elif k == "drop":
                 handles.pop(op[1], None)
